@@ -733,8 +733,32 @@ pub(crate) fn m_table_alloc() {
     }
 }
 
+/// Block prefixes of a custom decorator are measured in columns: a blockquote and a list rendered
+/// with non-ASCII prefixes ("│ " is 4 bytes / 2 columns, "• " likewise) through the public API.
+pub(crate) fn m_prefix_width() {
+    let which: u8 = kani::any();
+    let dec = KDec { quote: 3, ul: 3, header: 3, ol_suffix: 0 };
+    let html: &[u8] = if which % 2 == 0 {
+        b"<blockquote>a</blockquote><blockquote>hello world</blockquote>"
+    } else {
+        b"<ul><li>a</li><li>hello world</li></ul><h1>t</h1>"
+    };
+    for width in [3usize, 4, 5, 8, 20] {
+        let r = crate::config::with_decorator(dec.clone()).string_from_read(html, width);
+        match r {
+            Ok(s) => {
+                for line in s.lines() {
+                    assert!(UnicodeWidthStr::width(line) <= width, "line {:?} wider than {}", line, width);
+                }
+            }
+            Err(Error::TooNarrow) => {}
+            Err(_) => panic!("unexpected error"),
+        }
+    }
+}
+
 crate::verif_common::registry! {
-    m_into_cells, m_table_col_width, m_table_alloc,
+    m_prefix_width, m_into_cells, m_table_col_width, m_table_alloc,
     r1_cascade_pairs, r1_cascade_triples, r2_specificity_order, r2_specificity_add,
     r3_ol_prefix_total, r4_ol_prefix_is_max,
     r9_tree_map_reduce_order, r12_config_plumbing, r12_width_zero,
